@@ -91,7 +91,8 @@ def run(tier):
         A, B = enc_joint([cvg["cost_volume"].data, cvs["cost_volume"].data])
         cid = f"g{n}"
         cases.append({"id": cid, "kind": "grid", "rows": rows, "cols": cols, "nd": int(cvg.sizes["disp"]), "first": glo * s, "s": s,
-                      "dmin": enc_int(g["disp"][1]), "dmax": enc_int(g["disp"][2]), "A": A, "B": B})
+                      "dmin8": enc_int(np.rint(np.asarray(g["disp"][1], dtype=np.float64) * 8)),
+                      "dmax8": enc_int(np.rint(np.asarray(g["disp"][2], dtype=np.float64) * 8)), "A": A, "B": B})
         meta[cid] = dict(feat, relation="grid")
         chk.count(("grid", measure, win, s, glo, ghi))
         # constant grids are equivalent to the scalar interval, through a whole pipeline
@@ -152,7 +153,7 @@ def run(tier):
                 n += 1
                 cid = f"r{n}"
                 case = {"id": cid, "kind": "range", "rows": prob["rows"], "cols": prob["cols"], "per_pixel": bool(per_pixel),
-                        "lo": enc_int(prob["disp"][1]) if per_pixel else glo, "hi": enc_int(prob["disp"][2]) if per_pixel else ghi,
+                        "lo": enc_int(np.floor(prob["disp"][1])) if per_pixel else glo, "hi": enc_int(np.ceil(prob["disp"][2])) if per_pixel else ghi,
                         "glo": glo, "ghi": ghi, "attr": attr, "clause": "per_pixel_interval" if per_pixel else "global_interval",
                         "d3": milli(ds["disparity_map"].data), "vm": enc_int(ds["validity_mask"].data)}
                 cases.append(case)
